@@ -1,1 +1,316 @@
-/-! # C01 — property theorems (stub: not built yet) -/
+import KM.Props.C06
+import KM.Model.CertGen
+/-! # C01 — certificates are issued only after the operator-required authentication
+
+`decide` is the decision model of `certGenHandler` (repaired code); its sufficiency loop is the
+clause table `KM.Gen.certgenClauses` regenerated from the source on every run. -/
+namespace KM.CertGen
+open KM.Auth KM.Site KM.Gen
+
+/-- the factor bit each operator setting stands for (specification side; bit values from Gen.Consts) -/
+def factorBit (pref : List Char) : Option Nat :=
+  if pref == protoAuthTypeU2F.toList then some authTypeU2F
+  else if pref == protoAuthTypeTOTP.toList then some authTypeTOTP
+  else if pref == protoAuthTypeSymantecVIP.toList then some authTypeSymantecVIP
+  else if pref == protoAuthTypeIPCertificate.toList then some authTypeIPCertificate
+  else if pref == protoAuthTypeOkta2FA.toList then some authTypeOkta2FA
+  else if pref == protoAuthTypeWebauthForCLI.toList then some authTypeWebauthForCLI
+  else Option.none
+
+/-- what the property demands before a certificate may be issued -/
+def SpecSufficient (allowed : List (List Char)) (level : Nat) : Prop :=
+  protoAuthTypePassword.toList ∈ allowed ∨ hasAll level authTypeU2F = true ∨
+  ∃ f ∈ allowed, ∃ b, factorBit f = some b ∧ hasAll level b = true
+
+/-- well-formedness of a clause table: no unrecognised clause, the unconditional clause is the
+password setting, every factor clause tests the bit its setting stands for -/
+def clauseOK (c : Clause) : Bool :=
+  match c.test with
+  | .always => c.pref == protoAuthTypePassword.toList
+  | .hasAll b => factorBit c.pref == some b && c.prefConst == c.bitConst
+  | .unknown => false
+
+def alwaysOK (a : List Char × Nat) : Bool := a.2 == authTypeU2F && a.1 == "AuthTypeU2F".toList
+
+/-- **Table**: the sufficiency loop of the current source tree is well-formed, nothing else
+writes the verdict, the loop ranges over the operator's list, the gate is `AuthTypeAny`, and the
+gates run in the order sealed → checkAuth → sufficiency → target user → method → issue. -/
+theorem c01_table :
+    certgenClauses.all clauseOK = true ∧ certgenAlwaysBits.all alwaysOK = true ∧
+    certgenOtherWrites = 0 ∧ certgenRangesOverAllowedBackends = true ∧ certgenMask = Mask.any ∧
+    certgenGateOrder = ["sealed", "checkAuth", "sufficient", "targetUser", "post", "issue"].map String.toList ∧
+    authTypeAny = 0xFFFF := by decide
+
+/-- generic: a well-formed clause table grants only what the specification allows -/
+theorem sufficient_spec (clauses : List Clause) (always : List (List Char × Nat))
+    (hc : clauses.all clauseOK = true) (ha : always.all alwaysOK = true)
+    (allowed : List (List Char)) (level : Nat)
+    (h : sufficient clauses always allowed level = true) : SpecSufficient allowed level := by
+  unfold sufficient at h
+  rw [Bool.or_eq_true] at h
+  rcases h with h | h
+  · rw [List.any_eq_true] at h
+    obtain ⟨pref, hp, h⟩ := h
+    rw [List.any_eq_true] at h
+    obtain ⟨c, hcm, h⟩ := h
+    have hok := List.all_eq_true.mp hc c hcm
+    unfold clauseHolds at h
+    rw [Bool.and_eq_true] at h
+    obtain ⟨he, ht⟩ := h
+    have he' : c.pref = pref := by simpa using he
+    unfold clauseOK at hok
+    split at hok
+    · left
+      have : c.pref = protoAuthTypePassword.toList := by simpa using hok
+      rw [← this, he']; exact hp
+    · rename_i b hb
+      right; right
+      rw [hb] at ht
+      rw [Bool.and_eq_true] at hok
+      have : factorBit c.pref = some b := by simpa using hok.1
+      exact ⟨pref, hp, b, by rw [← he']; exact this, ht⟩
+    · cases hok
+  · rw [List.any_eq_true] at h
+    obtain ⟨a, ham, h⟩ := h
+    have hok := List.all_eq_true.mp ha a ham
+    unfold alwaysOK at hok
+    rw [Bool.and_eq_true] at hok
+    have : a.2 = authTypeU2F := by simpa using hok.1
+    right; left
+    rw [← this]; exact h
+
+/-- **Soundness**: a certificate is issued only when the server is unsealed, the request carries
+a credential that really establishes the identity and level it is admitted with, that level
+contains a method the operator listed (or the hardware-token bit, or the operator listed
+`password`), and the certificate is for the authenticated user — for every configuration,
+every operator list (any strings), every level bit set and every request shape. -/
+theorem c01_sound (cfg : Cfg) (allowed : List (List Char)) (r : CGReq) (u : User)
+    (h : decide cfg allowed r = .issued u) :
+    r.sealed = false ∧ u = r.target ∧ r.req.method = .post ∧ r.post = .ok ∧
+    ∃ info, checkAuth cfg r.req authTypeAny = .ok info ∧ info.user = u ∧
+      Established cfg r.req info ∧ SpecSufficient allowed info.authType := by
+  unfold decide decideWith at h
+  split at h
+  · cases h
+  · rename_i hs
+    split at h
+    · cases h
+    · cases h
+    · rename_i info hca
+      split at h
+      · cases h
+      · rename_i hsuf
+        split at h
+        · cases h
+        · rename_i hu
+          split at h
+          · cases h
+          · rename_i hm
+            split at h
+            · rename_i hp
+              injection h with h
+              have hsuf' : sufficient certgenClauses certgenAlwaysBits allowed info.authType = true := by
+                simpa using hsuf
+              refine ⟨by simpa using hs, ?_, by simpa using hm, hp, info, hca, h, ?_, ?_⟩
+              · rw [← h]; simpa using hu
+              · exact (c06_checkAuth_sound cfg r.req authTypeAny info hca).1
+              · exact sufficient_spec _ _ c01_table.1 c01_table.2.1 allowed _ hsuf'
+            · cases h
+
+/-- **Password-only sessions** get no certificate when only second factors are listed. -/
+theorem c01_password_only_refused (cfg : Cfg) (allowed : List (List Char)) (r : CGReq) (u : User) (info : AuthInfo)
+    (hnp : protoAuthTypePassword.toList ∉ allowed)
+    (hca : checkAuth cfg r.req authTypeAny = .ok info) (hlvl : info.authType = authTypePassword) :
+    decide cfg allowed r ≠ .issued u := by
+  intro h
+  obtain ⟨_, _, _, _, info', hca', _, _, hspec⟩ := c01_sound cfg allowed r u h
+  rw [hca] at hca'
+  injection hca' with e
+  subst e
+  rw [hlvl] at hspec
+  rcases hspec with h1 | h1 | ⟨f, hf, b, hb, hh⟩
+  · exact hnp h1
+  · revert h1; decide
+  · unfold factorBit at hb
+    repeat' split at hb
+    all_goals first
+      | (injection hb with hb; subst hb; revert hh; decide)
+      | cases hb
+
+/-- **Sealed**: while the signer is absent the endpoint answers 500 and decides nothing else. -/
+theorem c01_sealed (cfg : Cfg) (allowed : List (List Char)) (r : CGReq) (h : r.sealed = true) :
+    decide cfg allowed r = .refused 500 := by
+  unfold decide decideWith; simp [h]
+
+theorem tlsFinish_not_fail {m : Nat} {acc : TlsAcc} {s : Nat} : tlsFinish fixed m acc ≠ .fail s := by
+  unfold tlsFinish; split <;> simp
+
+theorem tlsBranch_fail {cfg : Cfg} {req : Req} {m s : Nat}
+    (h : tlsBranch fixed cfg req m = .fail s) : s = 403 ∨ s = 500 := by
+  unfold tlsBranch at h
+  repeat' split at h
+  all_goals first
+    | (cases h <;> omega)
+    | exact absurd h tlsFinish_not_fail
+
+theorem cookieBranch_fail {req : Req} {m s : Nat}
+    (h : cookieBranch req m = .fail s) : s = 401 ∨ s = 429 ∨ s = 500 := by
+  unfold cookieBranch at h
+  repeat' split at h
+  all_goals (cases h <;> omega)
+
+theorem cookieBranch_not_silent {req : Req} {m : Nat} : cookieBranch req m ≠ .silent := by
+  unfold cookieBranch
+  repeat' split
+  all_goals simp
+
+/-- every refusal of the repaired `checkAuth` writes a 4xx/5xx status; it never returns silently -/
+theorem checkAuth_refusal (cfg : Cfg) (req : Req) (m : Nat) :
+    (∃ info, checkAuth cfg req m = .ok info) ∨ ∃ s, checkAuth cfg req m = .fail s ∧ 400 ≤ s := by
+  unfold checkAuth checkAuthWith
+  split
+  · exact Or.inr ⟨400, by simp [fixed], by omega⟩
+  · split
+    · exact Or.inr ⟨401, rfl, by omega⟩
+    · split
+      · rename_i info _; exact Or.inl ⟨info, rfl⟩
+      · rename_i s ht
+        rcases tlsBranch_fail ht with h | h <;> exact Or.inr ⟨s, rfl, by omega⟩
+      · cases hc : cookieBranch req m with
+        | ok info => exact Or.inl ⟨info, rfl⟩
+        | fail s =>
+          rcases cookieBranch_fail hc with h | h | h <;> exact Or.inr ⟨s, rfl, by omega⟩
+        | silent => exact absurd hc cookieBranch_not_silent
+
+/-- **Everything else is an error**: a request that is not served receives a 4xx/5xx status
+(the handler never returns silently, and never answers 2xx without issuing), given that the
+post-authentication stage reports its own refusals with error statuses. -/
+theorem c01_otherwise_error (cfg : Cfg) (allowed : List (List Char)) (r : CGReq)
+    (hpost : ∀ s, r.post = .refused s → 400 ≤ s) :
+    (∃ u, decide cfg allowed r = .issued u) ∨ ∃ s, decide cfg allowed r = .refused s ∧ 400 ≤ s := by
+  unfold decide decideWith
+  split
+  · exact Or.inr ⟨500, rfl, by omega⟩
+  · rcases checkAuth_refusal cfg r.req authTypeAny with ⟨info, hca⟩ | ⟨s, hca, hs⟩
+    · unfold checkAuth at hca
+      rw [hca]
+      simp only
+      split
+      · exact Or.inr ⟨401, rfl, by omega⟩
+      · split
+        · exact Or.inr ⟨403, rfl, by omega⟩
+        · split
+          · exact Or.inr ⟨405, rfl, by omega⟩
+          · split
+            · exact Or.inl ⟨info.user, rfl⟩
+            · rename_i s hp
+              exact Or.inr ⟨s, rfl, hpost s hp⟩
+    · unfold checkAuth at hca
+      rw [hca]
+      exact Or.inr ⟨s, rfl, hs⟩
+
+/-- every factor setting of the specification has its clause in the table -/
+def tableComplete (clauses : List Clause) : Bool :=
+  [protoAuthTypeU2F, protoAuthTypeTOTP, protoAuthTypeSymantecVIP, protoAuthTypeIPCertificate,
+   protoAuthTypeOkta2FA, protoAuthTypeWebauthForCLI].all fun f =>
+    match factorBit f.toList with
+    | some b => clauses.any (fun c => c.pref == f.toList && c.test == ClauseTest.hasAll b)
+    | Option.none => false
+
+theorem c01_table_complete :
+    tableComplete certgenClauses = true ∧
+    certgenClauses.any (fun c => c.pref == protoAuthTypePassword.toList && c.test == ClauseTest.always) = true ∧
+    certgenAlwaysBits.any (fun a => a.2 == authTypeU2F) = true := by decide
+
+theorem factorBit_dom {f : List Char} {b : Nat} (h : factorBit f = some b) :
+    f ∈ [protoAuthTypeU2F, protoAuthTypeTOTP, protoAuthTypeSymantecVIP, protoAuthTypeIPCertificate,
+      protoAuthTypeOkta2FA, protoAuthTypeWebauthForCLI].map String.toList := by
+  unfold factorBit at h
+  repeat' split at h
+  all_goals first
+    | (cases h; done)
+    | (cases h; rename_i he; simp only [beq_iff_eq] at he; subst he; simp)
+
+/-- the specification's condition implies the code's sufficiency verdict (current table) -/
+theorem spec_sufficient (allowed : List (List Char)) (level : Nat)
+    (h : SpecSufficient allowed level) :
+    sufficient certgenClauses certgenAlwaysBits allowed level = true := by
+  unfold sufficient
+  rw [Bool.or_eq_true]
+  rcases h with h | h | ⟨f, hf, b, hb, hh⟩
+  · left
+    rw [List.any_eq_true]
+    refine ⟨_, h, ?_⟩
+    have := c01_table_complete.2.1
+    rw [List.any_eq_true] at this ⊢
+    obtain ⟨c, hc, hcc⟩ := this
+    rw [Bool.and_eq_true] at hcc
+    refine ⟨c, hc, ?_⟩
+    unfold clauseHolds
+    have ht : c.test = ClauseTest.always := by simpa using hcc.2
+    rw [ht]; simpa using hcc.1
+  · right
+    have := c01_table_complete.2.2
+    rw [List.any_eq_true] at this ⊢
+    obtain ⟨a, ha, hab⟩ := this
+    refine ⟨a, ha, ?_⟩
+    have : a.2 = authTypeU2F := by simpa using hab
+    rw [this]; exact h
+  · left
+    rw [List.any_eq_true]
+    refine ⟨f, hf, ?_⟩
+    have hdom := factorBit_dom hb
+    have hcomp := c01_table_complete.1
+    unfold tableComplete at hcomp
+    rw [List.all_eq_true] at hcomp
+    rw [List.mem_map] at hdom
+    obtain ⟨fs, hfs, hfe⟩ := hdom
+    have := hcomp fs hfs
+    rw [hfe, hb] at this
+    simp only at this
+    rw [List.any_eq_true] at this ⊢
+    obtain ⟨c, hc, hcc⟩ := this
+    rw [Bool.and_eq_true] at hcc
+    refine ⟨c, hc, ?_⟩
+    unfold clauseHolds
+    have ht : c.test = ClauseTest.hasAll b := by simpa using hcc.2
+    rw [ht, Bool.and_eq_true]
+    exact ⟨hcc.1, hh⟩
+
+/-- **Completeness**: a user holding a valid session (at least one factor bit) whose level meets
+the specification's condition, asking with POST for their own name on an unsealed server, with a
+well-formed key and duration, from the same site, is served. -/
+theorem c01_complete (cfg : Cfg) (allowed : List (List Char)) (r : CGReq) (t : Token)
+    (hs : r.sealed = false) (hm : r.req.method = .post) (hp : r.post = .ok)
+    (ho : r.req.origin = .none ∨ r.req.origin = .sameHost) (htls : r.req.tls = false)
+    (hc : r.req.cookie = some t) (hv : t.sigOK = true ∧ t.issOK = true ∧ t.audOK = true ∧ t.kind = .auth ∧
+      t.nbf ≤ r.req.now ∧ r.req.now ≤ t.exp) (hu : t.sub = r.target)
+    (hnz : hasBit t.level authTypeAny = true)
+    (hl : SpecSufficient allowed t.level) :
+    decide cfg allowed r = .issued r.target := by
+  have hca : checkAuthWith fixed cfg r.req authTypeAny =
+      .ok { user := t.sub, authType := t.level, issuedAt := t.iat, expiresAt := t.exp } := by
+    unfold checkAuthWith
+    have h1 : (r.req.origin == Origin.unparsable) = false := by rcases ho with h | h <;> simp [h]
+    have h2 : (r.req.origin == Origin.otherHost) = false := by rcases ho with h | h <;> simp [h]
+    have h3 : tlsBranch fixed cfg r.req authTypeAny = .fallthrough := by
+      unfold tlsBranch; simp [htls]
+    simp only [h1, h2, h3, Bool.and_false, Bool.false_and, Bool.false_eq_true, if_false]
+    unfold cookieBranch
+    simp only [hc]
+    have hj : jwtInfo r.req.now t = some { user := t.sub, authType := t.level, issuedAt := t.iat, expiresAt := t.exp } := by
+      unfold jwtInfo
+      simp [hv.1, hv.2.1, hv.2.2.1, hv.2.2.2.1, hv.2.2.2.2.1]
+    simp only [hj]
+    have h4 : ¬ (t.exp < r.req.now) := by omega
+    simp [h4, hnz]
+  unfold decide decideWith
+  simp only [hs, Bool.false_eq_true, if_false, hca]
+  simp [spec_sufficient allowed t.level hl, hu, hm, hp]
+
+/-- non-vacuity of `c01_complete`'s premises: a TOTP session with TOTP listed -/
+example : SpecSufficient ["TOTP".toList] (authTypePassword ||| authTypeTOTP) ∧
+    hasBit (authTypePassword ||| authTypeTOTP) authTypeAny = true := by
+  refine ⟨Or.inr (Or.inr ⟨_, List.mem_cons_self, authTypeTOTP, by decide, by decide⟩), by decide⟩
+
+end KM.CertGen
